@@ -70,6 +70,18 @@ class Dw2(DataInstruction):
         return [U16DataRelocation(self.v)]
 
 
+class Dw3(DataInstruction):
+    """The address of a label plus an offset in bytes, as 16 bits"""
+
+    tokens = [WordToken]
+    v = Operand("v", str)
+    offset = Operand("offset", int)
+    syntax = Syntax(["dw", " ", v, " ", "+", " ", offset])
+
+    def relocations(self):
+        return [U16DataRelocation(self.v, addend=self.offset)]
+
+
 class DByte(DataInstruction):
     tokens = [ByteToken]
     v = Operand("v", int)
@@ -130,6 +142,20 @@ class Dcd2(DataInstruction):
         return [U32DataRelocation(self.v)]
 
 
+class Dcd3(DataInstruction):
+    """The address of a label plus an offset in bytes, as 32 bits"""
+
+    v = Operand("v", str)
+    offset = Operand("offset", int)
+    syntax = Syntax(["dcd", " ", "=", v, " ", "+", " ", offset])
+
+    def encode(self):
+        return u32(0)
+
+    def relocations(self):
+        return [U32DataRelocation(self.v, addend=self.offset)]
+
+
 class Dq(DataInstruction):
     v = Operand("v", int)
     tokens = [QwordToken]
@@ -163,6 +189,19 @@ class Dq2(DataInstruction):
 
     def relocations(self):
         return [U64DataRelocation(self.v)]
+
+
+class Dq3(DataInstruction):
+    """The address of a label plus an offset in bytes, as 64 bits"""
+
+    v = Operand("v", str)
+    offset = Operand("offset", int)
+    tokens = [QwordToken]
+    syntax = Syntax(["dq", " ", "=", v, " ", "+", " ", offset])
+    patterns = {"value": 0}
+
+    def relocations(self):
+        return [U64DataRelocation(self.v, addend=self.offset)]
 
 
 class Ds(DataInstruction):
